@@ -429,6 +429,7 @@ func (t *trTranslator) translateFunc(f *trFunc) {
 	}
 	fmt.Fprintf(&b, "/-- Go: `%s` (%s)%s -/\n", trSigText(f.decl), t.l.relPos(f.decl.Pos()), extDoc)
 	fmt.Fprintf(&b, "def %s %s : %s :=\n%s\n", f.leanName, strings.Join(params, " "), ret, term.indent(2).String())
+	b.WriteString(c.createExternalsDef()) // (trans_units_create.go)
 	f.text = b.String()
 }
 
